@@ -220,6 +220,7 @@ FREQ_TD = {"15min": pd.Timedelta(minutes=15), "h": pd.Timedelta(hours=1),
            "4h": pd.Timedelta(hours=4), "d": pd.Timedelta(days=1)}
 FREQ_T = {"15min": [8, 16, 24, 48, 96], "h": [6, 12, 24, 36, 48, 72], "4h": [6, 12, 18, 24], "d": [4, 5, 7, 10, 14]}
 
+CAL_FREQS = ("MS", "W-MON")
 PRICE_KEYS = ["pr0", "pr1", "pr2"]
 CAP_KEYS = ("cap_lo", "cap_hi")
 
@@ -278,6 +279,27 @@ def gen_grid(env, gid=None, freq=None, T=None, tz="env", start_shift=True, mtu=N
     rng = env.rng
     if freq is None:
         freq = rng.choice(env.freqs or ["h", "h", "h", "4h", "d", "15min"])
+    if freq in CAL_FREQS:
+        # calendar grids: steps of unequal length (months) or anchored weeks
+        T = T if (T is not None and T <= 6) else rng.choice([2, 3, 4])
+        if freq == "MS":
+            start = env.base.replace(day=1)
+            end = start + pd.DateOffset(months=T)
+        else:
+            start = env.base - pd.Timedelta(days=env.base.weekday())     # a Monday
+            end = start + pd.Timedelta(weeks=T)
+        if tz == "env":
+            tz = env.tz
+        if mtu is None:
+            mtu = rng.choice(["h", "d", "d"])
+        g = {"start": env.tag_date(start, tz=None), "end": env.tag_date(end, tz=None), "freq": freq, "mtu": mtu, "tz": tz}
+        gid = gid or env.new_id("g")
+        env.world["grids"][gid] = g
+        env.U0 = min(env.U0, start)
+        env.U1 = max(env.U1, pd.Timestamp(end))
+        span = pd.Timestamp(end) - start
+        env.min_span = span if env.min_span is None else min(env.min_span, span)
+        return gid
     Ts = [t for t in FREQ_T[freq] if t <= env.max_T] or [min(FREQ_T[freq])]
     if T is None:
         T = rng.choice(Ts)
@@ -654,6 +676,8 @@ def coarse_freq(env, grid_freq, kw=None, p=None):
         return None
     if kw is not None and ("start" in kw or "end" in kw):
         return None
+    if grid_freq in CAL_FREQS:
+        return None
     opts = {"15min": ["h", "4h"], "h": ["4h", "d", "2h"], "4h": ["d", "8h"], "d": ["2d"]}[grid_freq]
     f = rng.choice(opts)
     span = env.min_span or pd.Timedelta(days=1)
@@ -664,7 +688,7 @@ def coarse_freq(env, grid_freq, kw=None, p=None):
 
 def periodicity(env, grid_freq):
     rng = env.rng
-    if rng.random() >= getattr(env, "periodic_p", 0.12) or grid_freq == "d":
+    if rng.random() >= getattr(env, "periodic_p", 0.12) or grid_freq == "d" or grid_freq in CAL_FREQS:
         return {}
     if (env.min_span or pd.Timedelta(0)) < pd.Timedelta(days=2) or env.tz not in (None, "UTC"):
         return {}
@@ -839,7 +863,7 @@ def gen_storage(env, nodes, grid_freq="h", mip_ok=True):
         kw["inflow"] = round(min(kw["cap_out"], 1.0) * rng.uniform(0.05, 0.5), 3)
     if rng.random() < 0.3:
         kw["price"] = rng.choice(PRICE_KEYS)
-    if rng.random() < 0.15 and grid_freq != "d":
+    if rng.random() < 0.15 and grid_freq != "d" and grid_freq not in CAL_FREQS:
         kw["block_size"] = rng.choice(["d", "2d"])
     if mip_ok and rng.random() < 0.2:
         kw["no_simult_in_out"] = True
@@ -1014,8 +1038,14 @@ def gen_linked(env, n_power, n_heat, grid_freq="h"):
     a2v = [{"$asset": a1} if rng.random() < 0.6 else nm(a1), "bool_on", None]
     if rng.random() < 0.3:
         a1v, a2v = {"$t": "tuple", "v": a1v}, {"$t": "tuple", "v": a2v}
+    ext_nodes = [{"$node": n_power}, {"$node": n_heat}]
+    if rng.random() < 0.4:
+        # the heat node stays inside the linked asset, and the linked variable sits in that internal node
+        ext_nodes = [{"$node": n_power}]
+        a1v_ = [a1v["v"][0] if isinstance(a1v, dict) else a1v[0], "disp", {"$node": n_heat} if rng.random() < 0.6 else w["nodes"][n_heat]["name"]]
+        a1v = {"$t": "tuple", "v": a1v_} if isinstance(a1v, dict) else a1v_
     kw = {"name": asset_name(env), "portfolio": {"$portf": pid},
-          "nodes": [{"$node": n_power}, {"$node": n_heat}],
+          "nodes": ext_nodes,
           "asset1_variable": a1v, "asset2_variable": a2v,
           "time_back": rng.choice([0, 1, 2]), "time_forward": rng.choice([0, 0, 1])}
     if rng.random() < 0.3:
